@@ -2,3 +2,27 @@
 pub fn fmt_stub(_args: core::fmt::Arguments<'_>) -> String {
     String::new()
 }
+
+/// `std::time::Instant::now` model: an arbitrary instant (the clock is environment).  Built by
+/// transmuting (secs, nanos) into the platform's Timespec-backed Instant (x86_64-linux layout: i64 + u32).
+#[cfg(kani)]
+pub fn instant_now_any() -> std::time::Instant {
+    let secs: i64 = kani::any();
+    let nanos: u32 = kani::any();
+    kani::assume(secs >= 0 && secs < (1i64 << 40) && nanos < 1_000_000_000);
+    unsafe { core::mem::transmute::<(i64, u32), std::time::Instant>((secs, nanos)) }
+}
+/// `Instant::elapsed` model: an arbitrary non-negative duration.
+#[cfg(kani)]
+pub fn instant_elapsed_any(_i: &std::time::Instant) -> std::time::Duration {
+    let secs: u64 = kani::any();
+    kani::assume(secs < (1u64 << 40));
+    std::time::Duration::from_secs(secs)
+}
+
+/// `core::fmt::write` for obligations whose inputs are ASSUMED not to reach any formatting: reaching
+/// it is reported ("outside model"), never silently skipped.
+pub fn fmt_write_unreachable(_out: &mut dyn core::fmt::Write, _args: core::fmt::Arguments<'_>) -> core::fmt::Result {
+    assert!(false, "shim outside model: core::fmt::write reached although the obligation's inputs exclude formatting");
+    Ok(())
+}
